@@ -439,6 +439,15 @@ class Unit:
         Returns: ratio of moles or Activity Units per mole storage unit ('umol', etc.).
 
         """
+        try:
+            return Unit._calculate_concentration_ratio(solute, concentration, solvent)
+        except ZeroDivisionError:
+            # the concentration of the pure solute (100 %, its density, ...): no amount of solvent gives it
+            raise ValueError("Concentration is impossible to create.")
+
+    @staticmethod
+    def _calculate_concentration_ratio(solute: Substance, concentration: str, solvent: Substance) \
+            -> Tuple[float, str, str]:
         # Formulas used here are found in solution_formulas.rst
         c, numerator, denominator = Unit.parse_concentration(concentration)
         if numerator not in ('g', 'L', 'mol', 'U'):
@@ -481,7 +490,7 @@ class Unit:
             else:
                 ratio = c
             # ratio can be multiplied by a stored value of moles to get number of U
-            ratio *= Unit.convert_from_storage(1, 'mol')
+            ratio *= Unit.convert_prefix_to_multiplier(config.moles_storage_unit[:-3])
         return ratio, numerator, denominator
 
 
